@@ -98,10 +98,13 @@ Definition read_value (ft : ftable) (scope : list (string * string)) (attrs : li
               else if String.eqb tl "boolean" then
                 match parse_boolean text with
                 | Some b => Some (L [A "bool"; A (if b then "true" else "false")])
-                | None => None
+                | None => Some (L [A "lit"; A text; A (pair_uri (tns, tl)); A "none"])   (* ill-formed: still a literal of that type *)
                 end
               else if String.eqb tl "dateTime" then
-                match iso_parse text with Some tm => Some (time_content tm) | None => None end
+                match iso_parse text with
+                | Some tm => Some (time_content tm)
+                | None => Some (L [A "lit"; A text; A (pair_uri (tns, tl)); A "none"])
+                end
               else if String.eqb tl "anyURI" then Some (L [A "id"; A text])
               else if String.eqb tl "QName" then
                 match resolve_uri scope text with Some u => Some (L [A "qn"; A u]) | None => None end
